@@ -241,7 +241,7 @@ fn case_json(leaf: &Leaf, fault: serde_json::Value) -> serde_json::Value {
 }
 
 fn emb_record() -> (String, u64, Vec<u8>) {
-    ("a".to_string(), EMB_POSITION, vec![])
+    ("e".to_string(), EMB_POSITION, vec![])
 }
 
 /// C08 oracle: every recovered record was appended; positions strictly increasing.
@@ -738,23 +738,18 @@ pub fn crc_frame(frame_type: u8, payload: &[u8]) -> Vec<u8> {
 
 pub const EMB_POSITION: u64 = 40;
 
-/// The byte image of a valid Full frame holding AppendRecords{queue "a", position 40, one empty
+/// The byte image of a valid Full frame holding AppendRecords{queue "e", position 40, one empty
 /// record at 40}: a payload a length fault could land on.
 pub fn embedded_frame_payload() -> Vec<u8> {
-    let mut e = vec![4u8];
-    e.extend_from_slice(&EMB_POSITION.to_le_bytes());
-    e.extend_from_slice(&1u16.to_le_bytes());
-    e.push(b'a');
-    e.extend_from_slice(&EMB_POSITION.to_le_bytes());
-    e.extend_from_slice(&0u32.to_le_bytes());
-    crc_frame(1, &e)
+    crc_frame(1, &embedded_entry())
 }
 
+/// AppendRecords{queue "e" (never created by any alphabet), position 40, one empty record}.
 fn embedded_entry() -> Vec<u8> {
     let mut e = vec![4u8];
     e.extend_from_slice(&EMB_POSITION.to_le_bytes());
     e.extend_from_slice(&1u16.to_le_bytes());
-    e.push(b'a');
+    e.push(b'e');
     e.extend_from_slice(&EMB_POSITION.to_le_bytes());
     e.extend_from_slice(&0u32.to_le_bytes());
     e
